@@ -49,6 +49,18 @@ func (its *MongoCollections) DeleteOperation(
 	return result.DeletedCount, nil
 }
 
+// PurgeOperationsFrom deletes the operations of a datatype whose sseq is 'from' or greater: what a commit
+// that failed between InsertOperations and UpdateDatatype left behind the recorded end of the log.
+func (its *MongoCollections) PurgeOperationsFrom(ctx iface.OrdaContext, duid string, from uint64) errors.OrdaError {
+	f := schema.GetFilter().
+		AddFilterEQ(schema.OperationDocFields.DUID, duid).
+		AddFilterGTE(schema.OperationDocFields.Sseq, from)
+	if _, err := its.operations.DeleteMany(ctx, f); err != nil {
+		return errors.ServerDBQuery.New(ctx.L(), err.Error())
+	}
+	return nil
+}
+
 // GetOperations gets operations of the specified range. For each operation, a given handler is called.
 func (its *MongoCollections) GetOperations(
 	ctx iface.OrdaContext,
